@@ -187,7 +187,7 @@ int __wrap_stat(const char *path, struct stat *st) {
         errno = ENOENT; return -1;
     }
     memset(st, 0, sizeof *st);
-    st->st_mode = (n->kind == 1 ? S_IFSOCK : S_IFREG) | 0644; st->st_size = (off_t)n->data.len; st->st_nlink = 1;
+    st->st_mode = (n->kind == 1 ? S_IFSOCK : n->kind == 2 ? S_IFIFO : S_IFREG) | 0644; st->st_size = n->kind == 2 ? 0 : (off_t)n->data.len; st->st_nlink = 1;
     return 0;
 }
 int simfs_has_prefix(const char *dir, size_t l) {
@@ -261,7 +261,8 @@ static ssize_t rc_write(void *c, const char *buf, size_t n) {
     return (ssize_t)n;
 }
 static int rc_seek(void *c, off64_t *off, int whence) {
-    RegCookie *rc = c; off64_t base = whence == SEEK_SET ? 0 : whence == SEEK_CUR ? (off64_t)rc->pos : (off64_t)rc->n->data.len;
+    RegCookie *rc = c; if (rc->n->kind == 2) { errno = ESPIPE; return -1; }
+    off64_t base = whence == SEEK_SET ? 0 : whence == SEEK_CUR ? (off64_t)rc->pos : (off64_t)rc->n->data.len;
     off64_t np = base + *off; if (np < 0) return -1;
     rc->pos = (size_t)np; *off = np; return 0;
 }
